@@ -9,6 +9,7 @@ back when the lottery has no winners); `c09_lock_discipline` is false for the un
 -/
 import EkwVerif.Lemmas.ShmLive3
 import EkwVerif.Lemmas.ShmWriter
+import EkwVerif.Lemmas.ShmMicroCount
 
 namespace EkwVerif.Shm
 open Aux
@@ -655,9 +656,12 @@ theorem c09_protected_history_partial (cap sc sr : Nat) (ops : List Op) (hs : Sa
 
 /-! ### lock discipline -/
 
-/-- After EVERY history (no assumption on the clients): `pageout_all` is held iff
-`pageout_count > 0`, and `pageout_count` is the number of page-out jobs whose callback has not
-run yet; in particular the lock is free whenever no page-out job is pending. -/
+/-- After EVERY history (no assumption on the clients) OF HANDLER-ATOMIC STEPS (every request handler and every
+disk-job callback is one step of the model): `pageout_all` is held iff `pageout_count > 0`, and `pageout_count` is the
+number of page-out jobs whose callback has not run yet; in particular the lock is free whenever no page-out job is pending.
+That the callbacks of one batch, running in several pool threads, behave like atomic steps on the counter and the lock is
+`c09_batch_lock_released_exact` below (and is false without `pageout_one` around the decrement:
+`c09_unlocked_decrement_full_fails`). -/
 theorem c09_lock_discipline (cap sc sr : Nat) (ops : List Op) :
     ((run (init cap sc sr) ops).lock = true ↔ 0 < (run (init cap sc sr) ops).count) ∧
     (run (init cap sc sr) ops).count = outJobs (run (init cap sc sr) ops).jobs ∧
@@ -670,6 +674,42 @@ theorem c09_lock_discipline (cap sc sr : Nat) (ops : List Op) :
   cases hl : (run (init cap sc sr) ops).lock
   · rfl
   · have := hb.lockCount.mp hl; omega
+
+/-! ### lock discipline at thread level: `pageout_count -= 1; if pageout_count == 0: pageout_all.release()` (Lemmas/ShmMicroCount.lean) -/
+
+open MicroCount in
+/-- **The counter of a batch and the release of `pageout_all`, with the callbacks of the batch in real threads**: every
+callback split into acquire `pageout_one` · read the counter · write it minus one · test it against 0 (release `pageout_all`) ·
+release `pageout_one`; for every non-empty batch whose callbacks all take `pageout_one` and EVERY interleaving of their
+micro steps: the counter equals the number of callbacks that have not yet written, `pageout_all` is never released while not
+held, it has been released exactly when it is no longer held (at most once), only after every callback has written (counter
+0); and when all callbacks have finished the counter is 0 and the lock is free. This is what the handler-atomic `cbStep` of
+Model/Shm.lean (and `c09_lock_discipline`, `c09_batch_in_flight_ends`) assumes of real threads. -/
+theorem c09_batch_lock_released_exact (ths : List Th) (hne : ths ≠ []) (hl : ∀ t ∈ ths, t.locking = true)
+    (hi : ∀ t ∈ ths, t.pc = .idle) (sched : List Nat) :
+    ((crun (start ths) sched).count = (((crun (start ths) sched).ths.countP Th.pre : Nat) : Int) ∧
+     (crun (start ths) sched).bad = false ∧
+     (crun (start ths) sched).releases = (if (crun (start ths) sched).all then 0 else 1) ∧
+     ((crun (start ths) sched).all = false → (crun (start ths) sched).count = 0)) ∧
+    ((∀ t ∈ (crun (start ths) sched).ths, t.pc = .done) →
+      (crun (start ths) sched).count = 0 ∧ (crun (start ths) sched).all = false ∧ (crun (start ths) sched).releases = 1) := by
+  refine ⟨locked_batch_exact ths hne hl hi sched, ?_⟩
+  intro hd
+  obtain ⟨h1, h2, h3, _⟩ := locked_batch_done ths hne hl hi sched hd
+  exact ⟨h1, h2, h3⟩
+
+open MicroCount in
+/-- … and it is false as soon as the decrement is not under `pageout_one` (re-audit probe P3: `pageout_count -= 1; if … ==
+0: release` moved out of the `with` block): two callbacks of one batch both read 2; both finish; the counter is 1 and
+`pageout_all` is held for ever -- every later eviction attempt is turned away and requests that need one are answered `wait`
+for ever (clause (e)). The harness puts a real second thread at the STORE_ATTR of `pageout_count` inside the real callback. -/
+theorem c09_unlocked_decrement_full_fails :
+    ¬ ∀ (ths : List Th), ths ≠ [] → (∀ t ∈ ths, t.pc = .idle) → ∀ (sched : List Nat),
+        (∀ t ∈ (crun (start ths) sched).ths, t.pc = .done) → (crun (start ths) sched).all = false := by
+  intro h
+  have h1 := h racyBatch (by decide) (by decide) racySchedule unlocked_decrement_loses.1
+  rw [unlocked_decrement_loses.2.2.1] at h1
+  cases h1
 
 /-! ### eventually granted -/
 
@@ -845,8 +885,9 @@ theorem c09_client_timeout_exhausted (s : St) (k : String) (size : Nat) (deser :
     have := (sendLoop_timeout _ (askGet_no_timeout k) sched budget s 0 s' n h).2
     simpa using this
 
-/-- the buffer returned by `client.get` closes with the reader id that was granted, the one returned by `client.allocate`
-with the empty id (the writer's close): `granted rdid` carries exactly what the close lambda sends -/
+/-- the buffer returned by `client.allocate` closes with the empty id (the writer's close): its result `granted rdid` carries
+what the close lambda sends, and that is `""`. The `client.get` half -- the id carried is the one the store registered for this
+read -- is `c09_client_get_close_id` below. -/
 theorem c09_client_close_ids (s : St) (k : String) (size : Nat) (deser : String) (budget : Nat) (sched : List Attempt) (s' : St) (rdid : String) (n : Nat) :
     (clientAlloc s k size deser budget sched = (s', .granted rdid, n) → rdid = "") := by
   unfold clientAlloc
@@ -868,6 +909,86 @@ theorem c09_client_close_ids (s : St) (k : String) (size : Nat) (deser : String)
           unfold askAdd at hask
           split at hask <;> cases hask <;> cases h
           rfl
+
+theorem get_granted_registers (s : St) (k : String) (t : Nat) (cands : List String) (s' : St) (size : Nat) (r deser : String)
+    (h : get s k t cands = (s', .granted size r deser)) :
+    ∃ d, find? s'.ds k = some d ∧ d.status = .inMemory ∧ find? d.readers r = some t ∧ d.size = size ∧
+      ∃ d0, find? s.ds k = some d0 ∧ find? d0.readers r = none ∧ d0.gen = d.gen := by
+  unfold get at h
+  cases hd : find? s.ds k with
+  | none => simp [hd] at h
+  | some d0 =>
+    simp only [hd] at h
+    cases hst : d0.status <;> simp only [hst] at h
+    · cases h
+    · cases hf : firstFresh d0.readers cands with
+      | none => simp [hf] at h
+      | some r' =>
+        simp only [hf, Prod.mk.injEq, GetOut.granted.injEq] at h
+        obtain ⟨hs', hsz, hr, _⟩ := h
+        subst hs'; subst hr
+        have hfresh : find? d0.readers r' = none := by
+          clear hd hst hsz
+          induction cands with
+          | nil => simp [firstFresh] at hf
+          | cons c cs ih =>
+            simp only [firstFresh] at hf
+            split at hf
+            · exact ih hf
+            · cases hf
+              cases hh : find? d0.readers r' with
+              | none => rfl
+              | some _ => simp_all
+        refine ⟨_, find?_set_self _ _ _ _ hd, rfl, ?_, hsz, d0, rfl, hfresh, rfl⟩
+        exact find?_append_self _ _ _ hfresh
+    · cases h
+    · split at h <;> cases h
+    · cases h
+
+/-- the get half of `c09_client_close_ids`: when `client.get` returns with `granted rdid`, `rdid` is the id under which the
+store registered THIS read in the request that was granted (fresh at that moment, start time = the time of that request,
+dataset in memory): the close lambda of the returned buffer sends exactly that id -/
+theorem c09_client_get_close_id (s : St) (k : String) (budget : Nat) (sched : List Attempt) (s' : St) (rdid : String) (n : Nat)
+    (h : clientGet s k budget sched = (s', .granted rdid, n)) :
+    ∃ d, find? s'.ds k = some d ∧ d.status = .inMemory ∧ (find? d.readers rdid).isSome ∧
+      (rdid ≠ "" → (clientClose s' k rdid).2 = .ok) := by
+  unfold clientGet at h
+  suffices hh : ∀ (sched : List Attempt) (budget : Nat) (s : St) (m : Nat), sendLoop (askGet k) sched budget s m = (s', .granted rdid, n) →
+      ∃ d, find? s'.ds k = some d ∧ d.status = .inMemory ∧ (find? d.readers rdid).isSome by
+    obtain ⟨d, hd, hst, hr⟩ := hh sched budget s 0 h
+    refine ⟨d, hd, hst, hr, ?_⟩
+    intro e
+    simp [clientClose, closeCb, hd, e, hst]
+  intro sched
+  induction sched with
+  | nil => intro budget s m h; simp only [sendLoop] at h; split at h <;> cases h
+  | cons a rest ih =>
+    intro budget s m h
+    simp only [sendLoop] at h
+    split at h
+    · cases h
+    · cases hask : askGet k (run s a.env) a with
+      | mk s1 o =>
+        cases o with
+        | none => simp only [hask] at h; exact ih _ _ _ h
+        | some r =>
+          simp only [hask, Prod.mk.injEq] at h
+          obtain ⟨h1, h2, _⟩ := h
+          subst h1; subst h2
+          unfold askGet at hask
+          cases hg : get (run s a.env) k a.t a.cands with
+          | mk s2 o2 =>
+            rw [hg] at hask
+            cases o2 with
+            | granted size r deser =>
+              simp only [Prod.mk.injEq, Option.some.injEq, ClientOut.granted.injEq] at hask
+              obtain ⟨e1, e2⟩ := hask
+              subst e1; subst e2
+              obtain ⟨d, hd, hst, hr, _⟩ := get_granted_registers _ _ _ _ _ _ _ _ hg
+              exact ⟨d, hd, hst, by simp [hr]⟩
+            | wait => simp at hask
+            | keyError => simp at hask
+            | noUuid => simp at hask
 
 /-! ### delayed purge when the readers have gone stale (known finding C09-stale-reader-close) -/
 
@@ -897,11 +1018,15 @@ theorem c09_delayed_purge_stale_full_fails :
 /-! ### not readable before the writer has finished, at the level of histories -/
 
 /-- **In every history of the class, a dataset that is handed out has been closed by its own writer before**: after a
-`SafeRun` history in which every writer's close reaches the allocation it was granted and no eviction attempt happens
-while some writer is older than STALE_CREATE (`WriterRun`), a granted `get` refers to a dataset whose allocation `g` has
+`SafeRun` history in which every writer's close reaches the allocation it was granted and NO REQUEST THAT READS THE CLOCK
+(`add`, `get` -- the requests that can start an eviction attempt) arrives while some writer is older than STALE_CREATE
+(`WriterRun` = `ownCloseB ∧ timelyB` at every step; `timelyB` is this stronger, state-independent form of "no eviction
+attempt happens while some writer is stale"), a granted `get` refers to a dataset whose allocation `g` has
 an earlier `close_callback(key, "")` step in the history, sent by the writer of allocation `g` while `g` was being
 written (status `created`) -- the step that made it readable. The two excluded classes are known findings
-(`c09_readable_after_close_full_fails`). -/
+(`c09_readable_after_close_full_fails`). The key `k'` of that close is not stated to be `k` (it is: allocation numbers are
+never reused, but that invariant is not part of the proof); what is stated is that the close acted on the allocation
+`d.gen` that is handed out. Non-vacuity: `writerDemo` below. -/
 theorem c09_readable_after_close_partial (cap sc sr : Nat) (as : List AOp)
     (hs : SafeRun (init cap sc sr) (as.map (·.1))) (hw : WriterRun (init cap sc sr) as)
     (k : String) (t : Nat) (cands : List String) (size : Nat) (r deser : String)
@@ -931,6 +1056,17 @@ theorem c09_readable_after_close_partial (cap sc sr : Nat) (as : List AOp)
   rcases closed_origin as (init cap sc sr) [] d.gen hmem with h0 | ⟨pre, post, op, k', d0, e, hwc, hd0, hst0, hg0⟩
   · cases h0
   · exact ⟨d, pre, post, op, k', hd, e, hwc, d0, hd0, hst0, hg0⟩
+
+
+/-- non-vacuity of `c09_readable_after_close_partial`: a history of the class (`SafeRun` and `WriterRun`) with eviction, a
+page-in and a second allocation, after which `get` IS granted -- and the close the theorem speaks of is step 2 -/
+def writerDemo : List AOp :=
+  [(.add "a" 6 "" 1, 0), (.cwrite "a" 6 1, 0), (.closeW "a", 0), (.add "b" 6 "" 2, 0), (.io 0 .ok, 0), (.cb 0, 0),
+   (.add "b" 6 "" 3, 1), (.cwrite "b" 6 2, 1), (.closeW "b", 1), (.purge "b", 0), (.get "a" 4 ["r0"], 0), (.io 1 .ok, 0), (.cb 1, 0)]
+
+example : SafeRun (init 10 900 900) (writerDemo.map (·.1)) ∧ WriterRun (init 10 900 900) writerDemo ∧
+    (get (run (init 10 900 900) (writerDemo.map (·.1))) "a" 5 ["r1"]).2 = .granted 6 "r1" "" ∧
+    writerDemo[2]?.map (fun a => (wclose a.1, a.2)) = some (some "a", 0) := by decide
 
 /-- a writer older than STALE_CREATE is treated as dead: evicted, paged in again, handed out -- never closed -/
 def staleWriterOps : List AOp :=
